@@ -48,6 +48,19 @@ def check_calc(mod, tier, seed, extra_modules=()):
             generated_file=os.path.relpath(path, ROOT))
         rep.samples = [dict(theorem=o.name, statement=o.statement[:400], meaning=o.what) for o in g.obligations[:: max(1, len(g.obligations) // 8)]]
     rep.assumptions = list(getattr(mod, 'ASSUMPTIONS', []))
+    # optional second engine of the property (a hand-written model with its own correspondence)
+    extra_failing = []
+    if hasattr(mod, 'extra_phase'):
+        try:
+            eb, extra_failing = mod.extra_phase(rep, tier, seed)
+            broken += eb
+        except Exception as e:
+            rep.notes.append(f'extra_phase crashed: {type(e).__name__}: {e}')
+            broken.append(dict(kind='extra-phase-error', detail=f'{type(e).__name__}: {e}', where=traceback.format_exc()[-800:]))
+    for f in extra_failing[:3]:
+        rep.violation(dict(kind='failing-input', input=f, broken=broken))
+    if extra_failing:
+        return rep.finish(checker_cmd=f'cd lean && lake build NdeVerif.Gen.{mod.PID}')
     # exact observations on the real code that are part of the property (rejection paths, output widths): every run
     always = []
     if hasattr(mod, 'runtime_checks'):
